@@ -24,9 +24,12 @@ ADDR_MIX = {"v4": ([V4], []), "v6": ([], [V6]), "dual": ([V4, bytes([10, 0, 0, 2
 CONFLICT_TIMES = [None, -100, 0, 1, 100, 174, 175, 176, 300, 349, 350, 351, 500]
 
 
-def svc(mix: str, ttls: str, name: str = "s1._a._tcp.local.") -> Svc:
+def svc(mix: str, ttls: str, name: str = "s1._a._tcp.local.", cased: bool = False) -> Svc:
     v4, v6 = ADDR_MIX[mix]
     host_ttl, other_ttl = (120, 4500) if ttls == "default" else (30, 2000)
+    if cased:
+        # capitals in instance, type and host name (everything on the wire is compared case-insensitively)
+        return Svc("_A._tcp.local.", "S1 Speaker._A._tcp.local.", "H1.Local.", 80, b"\x03a=b", v4, v6, host_ttl, other_ttl)
     return Svc(TA, name, "h1.local.", 80, b"\x03a=b", v4, v6, host_ttl, other_ttl)
 
 
@@ -56,6 +59,10 @@ def points(tier: str) -> List[Dict[str, Any]]:
     for allow, chain in itertools.product((False, True), (1, 2)):
         pts.append({"kind": "peer", "mix": "v4", "ttls": "default", "allow": allow, "tc": None, "c2": None, "chain": chain,
                     "respelled": True})
+    # names with capitals
+    for mix, allow, tc in itertools.product(("v4", "dual", "none"), (False, True), (None, -100, 100, 300)):
+        pts.append({"kind": "peer", "mix": mix, "ttls": "default", "allow": allow, "tc": tc, "c2": None, "chain": 0,
+                    "cased": True})
     # no host name given: the library then uses the instance name as host name - which instance name, if it renames?
     for mix, allow, tc in itertools.product(("v4", "dual"), (False, True), (None, -100, 100, 300)):
         pts.append({"kind": "peer", "mix": mix, "ttls": "default", "allow": allow, "tc": tc, "c2": None, "chain": 0,
@@ -164,7 +171,7 @@ def run_point(p: Dict[str, Any], verbose: bool = False) -> Tuple[Optional[Dict[s
     from zeroconf._exceptions import NonUniqueNameException, ServiceNameAlreadyRegistered
 
     problems: List[str] = []
-    desc = svc(p["mix"], p["ttls"])
+    desc = svc(p["mix"], p["ttls"], cased=bool(p.get("cased")))
     with World(rand=RandPolicy.const(0.0)) as w:
         b = None
         if p["kind"] == "instance":
